@@ -555,7 +555,9 @@ def run(ctx):
     # ---- verdicts ------------------------------------------------------------------------------------------
     def size_of(r):
         t = r['in']['target']
-        return (len(r['in']['files']), sum(len(t.get(k) or []) for k in ('minus', 'plus', 'plus_bare', 'plus_readme')), t['engine'] != '', t['version'])
+        pipe = r['in'].get('pipe') or {}
+        return (sum(1 for k_, v_ in pipe.items() if v_), len(r['in']['files']),
+                sum(len(t.get(k) or []) for k in ('minus', 'plus', 'plus_bare', 'plus_readme')), t['engine'] != '', t['version'])
     seen_kinds = set()
     for r, kind, detail in sorted(bad, key=lambda x: size_of(x[0])):
         if kind in seen_kinds:
